@@ -122,9 +122,16 @@ CLAIMED = {
              "after everything awaited has happened, with the awaited outcomes, dropped only through a rejecting executor "
              "(StopError, no resumption, frame local destroyed once), no data race on the frame or the results; every "
              "schedule of the real coroutine (up to the preemption bound) is validated against the specification by TLC; "
-             "a compile probe instantiates all 25 documented awaiting forms.",
-        note=CONC_NOTE + "; SharedFuture / Task awaiting, Yield, CurrentExecutor: compile probe only", design="7/C13",
-        technique="TLA+ spec + TLC model checking; schedule enumeration on the code with TLC trace validation; compile probe"),
+             "a compile probe instantiates all 25 documented awaiting forms. CoroSeq.tla is the sequential reference "
+             "interpreter of the whole coroutine layer (Future / SharedFuture / Task coroutines x ways of starting, On, Yield, "
+             "CurrentExecutor, co_await / Await / AwaitSticky / AwaitOn of unique, FutureOn and shared futures, Tasks of "
+             "every head kind, a second coroutine on the same SharedFuture, rejecting executors): TLC checks resume-once, "
+             "where-asked, awaited futures left intact, lazy = eager twin on every program and prints the prescribed log; "
+             "every program is executed on the real coroutines in the three symmetric-transfer configurations.",
+        note=CONC_NOTE + "; sequential programs: bounded by the cfg constants (<= 2-3 statements), deterministic driver",
+        design="7/C13",
+        technique="TLA+ spec + TLC model checking; schedule enumeration on the code with TLC trace validation; TLA+ reference "
+                  "interpreter with TLC-enumerated programs replayed on the code; compile probe"),
     "C14": dict(
         text="CoMutex.tla models yaclib::Mutex<Batching,FIFO> with the pool's workers as processes and the coroutines as "
              "passive objects: sender word (not locked / locked / LIFO list of new waiters), holder-private receiver list, "
@@ -248,7 +255,7 @@ def main():
 
 
 HOOK_COMMITS = ["286d692", "d1e7f53", "baaa718"]
-FIX_COMMITS = ["8086256", "48cc44a", "6c036e9", "8faf037", "f30eead", "d8002b9", "fc2e11e", "6ed24f0", "79981a2", "38254af"]
+FIX_COMMITS = ["8086256", "48cc44a", "6c036e9", "8faf037", "f30eead", "d8002b9", "fc2e11e", "6ed24f0", "79981a2", "38254af", "21bdcf1"]
 
 if __name__ == "__main__":
     main()
